@@ -57,7 +57,7 @@ func init() {
 		Breaker{Name: "blocks-pk-without-ledger", File: "internal/storage/bucket/migrations/53-fix-logs-blocks-pkey-collision/up.sql",
 			Old: "alter table logs_blocks add primary key (ledger, previous);", New: "alter table logs_blocks add primary key (previous);", Expect: "CAT/logs-blocks"},
 		Breaker{Name: "worker-selects-sync-ledgers", File: "internal/storage/worker_async_block.go",
-			Old: "query.Match(fmt.Sprintf(\"features[%s]\", features.FeatureHashLogs), \"ASYNC\")", New: "query.Match(fmt.Sprintf(\"features[%s]\", features.FeatureHashLogs), \"SYNC\")", Expect: "LOCK/coverage"},
+			Old: "query.Match(fmt.Sprintf(\"features[%s]\", features.FeatureHashLogs), \"ASYNC\")", New: "query.Match(fmt.Sprintf(\"features[%s]\", features.FeatureHashLogs), \"SYNC\")", Expect: "DOM/block-worker"},
 	)
 }
 
@@ -646,6 +646,8 @@ func checkC34(c *core.Ctx) {
 				v, ok := astx.ConstString(info, call.Args[1])
 				if len(k) == 1 && k[0] == "features[HASH_LOGS]" && ok {
 					consumers[v] = "create_block selects logs with id > the previous block's max id, in id order"
+					// the ledgers whose logs are to be covered by blocks are the ASYNC ones
+					c.Check(v == "ASYNC", "DOM/block-worker", declKey(d)+":ledger-filter", pos(c, call), "the worker builds blocks for the ledgers with HASH_LOGS=ASYNC", fmt.Sprintf("the block worker selects the ledgers with HASH_LOGS=%s: the logs of the HASH_LOGS=ASYNC ledgers are never put in a block", v))
 				}
 			}
 		}
